@@ -1,5 +1,6 @@
 """Runner: `python3 -m engine.run Cxx [--tier quick|thorough] [--replay path]`."""
 import importlib
+import re
 import json
 import os
 import sys
@@ -87,7 +88,12 @@ def site_desc(body, site):
         return "call:%s#%d" % (nm, ordn)
     if site.kind == 'return':
         return "return"
-    if site.kind in ('assign', 'mutborrow', 'agg'):
+    if site.kind == 'agg':
+        rv = site.data['rv']
+        nm = '%s::%s' % (rv['adt'].split('::')[-1], rv['variant'])
+        same = [s.bb for s in body.aggregates('^' + re.escape(rv['adt']) + '$', rv['variant'])]
+        return "agg:%s#%d" % (nm, same.index(site.bb) if site.bb in same else 0)
+    if site.kind in ('assign', 'mutborrow'):
         pl = site.data['place']
         return "%s:%s" % (site.kind, place_desc(body, pl))
     return site.kind
